@@ -207,7 +207,7 @@ def gen_jobs(ctx):
     programs = []
     for name, prog in pg.PROC_CORPUS.items():
         programs.append((f'pg:{name}', prog, {'a': 1, 'ns': {'d0': [0]}}))
-    for name, prog in ((n, p) for n, p in pm.CORPUS.items() if n != 'RetAwaitable'):   # its result is a live awaitable object
+    for name, prog in ((n, p) for n, p in pm.CORPUS.items() if n not in ('RetAwaitable', 'MissingOut')):   # its result is a live awaitable object
         if prog['kind'] == 'proc':
             programs.append((f'pm:{name}', prog, None))
     for i in range(150 if not thorough else 800):
